@@ -44,7 +44,7 @@ def _case(rng, cid, mode, naxes_tiled, walls, matmode, T, neg=False):
     rng.shuffle(axes)
     tiled = sorted(axes[:naxes_tiled])
     forced = tiled[0]
-    N, M, kinds, phi = [0, 0, 0], [1, 1, 1], ["", "", ""], [[1, 0, 1]] * 3
+    N, M, kinds, phi = [0, 0, 0], [1, 1, 1], ["", "", ""], [[1, 0, 1] for _ in range(3)]
     for a in range(3):
         if a in tiled:
             N[a] = rng.choice([2, 3])
@@ -64,9 +64,19 @@ def _case(rng, cid, mode, naxes_tiled, walls, matmode, T, neg=False):
             if w == "periodic" and rng.random() < 0.5:
                 kinds[a] = "bloch" if mode == "exact" else "periodic"
                 phi[a] = UNIT[rng.choice([1, 2, 3])] if kinds[a] == "bloch" else [1, 0, 1]
-    if naxes_tiled == 2 and max(M[a] for a in tiled) == 3 and mode != "exact":
-        # keep the multiplier den^(sum j) small: families with den 5 only when two axes are tiled three times
-        phi = [p if p[2] <= 5 else [3, 4, 5] for p in phi]
+    # Trace_Supercell clears denominators: copy j is compared through the multiplier prod_a den_a^j[a] (j[a] <= M[a]-1),
+    # which must stay below 30000 (3-limb arithmetic inside TLC, WellFormed).  Replace the largest denominators by the
+    # den-5 family (same sign of k) until it does; 5^(2+2+2) = 15625 always fits.
+    def mult():
+        m = 1
+        for a in range(3):
+            m *= phi[a][2] ** (M[a] - 1)
+        return m
+
+    while mult() >= 30000:
+        a = max(range(3), key=lambda a: phi[a][2] ** (M[a] - 1))
+        phi[a] = [3, 4, 5] if phi[a][1] > 0 else [3, -4, 5]
+    assert mult() < 30000
     return {"id": cid, "mode": mode, "N": N, "M": M, "kinds": kinds, "phi": phi, "mat": matmode, "T": T, "seed": rng.randrange(10**9)}
 
 
